@@ -34,6 +34,7 @@ import pickle
 import random
 import shutil
 import tempfile
+import unicodedata
 import warnings
 import zlib
 from typing import Any, Dict, List, Optional, Tuple
@@ -55,6 +56,7 @@ RULE = (
     "inline /CS name, form XObject name, image XObject name, image name inside a form) carries a hostile string: absolute "
     "paths, ../ chains (#2F-escaped in names), .pickle.gz suffixes, NULs (also NULs that only produce '..' once stripped), "
     "300-byte names, names of existing files (also symbolic links, dangling or not), '.', '..', empty, doubled separators, "
+    "compatibility forms that Unicode normalisation turns into separators or dots (U+FF0F, U+FF3C, U+FF1A, U+FF0E, U+2024, U+FE52), "
     "'....//' (a '../' left behind by a one-pass filter), prefix-confusion siblings (<dir>_evil), traversals that stay inside one "
     "allowed directory but leave the other (sibling of CMAP_PATH named like the bundled cmap directory, and the converse), "
     "Windows separators, ~ and $VAR, non-UTF-8 bytes; enumerated over output types text/xml/html and output-directory "
@@ -252,6 +254,24 @@ WRITE_STRINGS: List[Tuple[str, bytes]] = (
         ("utf8", "bild\u00e4".encode("utf-8")),
         ("not_utf8", b"../esc\xff"),
         ("percent", b"..%2Fescaped"),
+        # compatibility forms of the separators and of the dot (UTF-8 in the name): Unicode normalisation NFKC/NFKD turns
+        # U+FF0F into "/", U+FF3C into "\\", U+FF1A into ":", U+FF0E / U+2024 / U+FE52 into "."
+        ("nfkc_solidus_up1", "..\uff0fescaped".encode()),
+        ("nfkc_solidus_up2", "..\uff0f..\uff0fescaped".encode()),
+        ("nfkc_solidus_up3", "..\uff0f..\uff0f..\uff0fescaped".encode()),
+        ("nfkc_fullwidth_dots_up1", "\uff0e\uff0e\uff0fescaped".encode()),
+        ("nfkc_fullwidth_dots_up3", ("\uff0e\uff0e\uff0f" * 3 + "escaped").encode()),
+        ("nfkc_fullwidth_dots_real_slash", "\uff0e\uff0e/escaped".encode()),
+        ("nfkc_dot_leader_up1", "\u2024\u2024\uff0fescaped".encode()),
+        ("nfkc_small_full_stop_up1", "\ufe52\ufe52\uff0fescaped".encode()),
+        ("nfkc_mixed_dots_up2", ".\uff0e\uff0f\u2024.\uff0fescaped".encode()),
+        ("nfkc_solidus_abs", b"@ABS_FW@" + "\uff0fescaped".encode()),
+        ("nfkc_solidus_victim", "..\uff0fvictim".encode()),
+        ("nfkc_into_sub", "sub\uff0fimg".encode()),
+        ("nfkc_reverse_solidus", "..\uff3c..\uff3cescaped".encode()),
+        ("nfkc_colon", "C\uff1a\uff3cescaped".encode()),
+        ("nfkc_division_slash", "..\u2215escaped".encode()),
+        ("nfkc_fraction_slash", "..\u2044escaped".encode()),
     ]
 )
 WRITE_CONTROLS: List[Tuple[str, bytes]] = [("ctl_Im1", b"Im1"), ("ctl_Image7", b"Image7"), ("ctl_dotted", b"fig.a"), ("ctl_X", b"X")]
@@ -328,6 +348,10 @@ def minimums(tier: str) -> Dict[str, int]:
         "numbered_run_family_runs": len(NUMBERED_RUNS) * len(NUMBERED_KINDS),
         "numbered_run_exactly_one_new_file": len(NUMBERED_RUNS) * len(NUMBERED_KINDS),
         "numbered_run_preexisting_files": sum(n + 1 for n in NUMBERED_RUNS) * len(NUMBERED_KINDS),
+        # names with compatibility forms of separators/dots, through the image slots and the dumppdf -E slots
+        "nfkc_family_runs": 200,
+        "nfkc_family_names_that_leave_dir_once_normalised": 100,
+        "nfkc_family_runs_with_file_in_dir": 150,
         "seen:slots": len(ALL_SLOTS) + 3 + len(EMBED_SLOTS),
         "seen:otypes": 3,
         "seen:outmodes": len(OUTMODES),
@@ -614,6 +638,7 @@ class Scratch:
         t = t.replace(b"@REL_LIB@", os.fsencode(os.path.relpath(self.decoy_base, LIB_CMAP_DIR)))
         t = t.replace(b"@RELX@", b"../" * 16 + dec.lstrip(b"/"))
         t = t.replace(b"@ROOT@", os.fsencode(self.root))
+        t = t.replace(b"@ABS_FW@", os.fsencode(self.absdir).replace(b"/", "\uff0f".encode()))
         t = t.replace(b"@ABS@", os.fsencode(self.absdir))
         t = t.replace(b"@OUTBASE@", os.fsencode(self.outbase))
         t = t.replace(b"@REL_LIB_M@", os.fsencode(self.rel_lib_m))
@@ -830,7 +855,11 @@ def build_embedded_doc(case: Dict[str, Any], h: bytes) -> Tuple[bytes, Dict[str,
         fs["F"] = h
     else:
         fs["F"] = b"plain.txt"
-        fs["UF"] = h if slot == "embedded_uf" else b"\xfe\xff" + h.decode("latin-1").encode("utf-16-be")
+        try:
+            text = h.decode("utf-8")
+        except UnicodeDecodeError:
+            text = h.decode("latin-1")
+        fs["UF"] = h if slot == "embedded_uf" else b"\xfe\xff" + text.encode("utf-16-be")
         fs["EF"]["UF"] = ef1
     fs1 = doc.add(fs)
     ef2 = doc.add(Stream({"Type": N("EmbeddedFile"), "Filter": N("FlateDecode")}, zlib.compress(b"payload two\n")))
@@ -864,6 +893,7 @@ def _embed_candidates(h: bytes) -> List[str]:
             out.append(h.replace(b"\x00", b"").decode(codec))
         except UnicodeDecodeError:
             pass
+    out = out + [unicodedata.normalize(form, c) for c in out for form in ("NFKC", "NFKD")]
     return out + [c.replace("\\", "/") for c in out]
 
 
@@ -1000,8 +1030,18 @@ def _write_target_in_root(sc: Scratch, h: bytes) -> bool:
     """Would <output_dir>/<h><ext> (NULs dropped; also with backslashes read as separators) stay inside the scratch root?"""
     base = sc.eff_out if sc.eff_out is not None else sc.run_cwd
     s = os.fsdecode(h.replace(b"\x00", b""))
-    for cand in (s, s.replace("\\", "/")):
-        p = os.path.realpath(os.path.join(base, cand + ".x"))
+    cands = [s, s.replace("\\", "/")]
+    for form in ("NFKC", "NFKD", "NFC"):
+        try:
+            n = unicodedata.normalize(form, s)
+        except ValueError:
+            continue
+        cands += [n, n.replace("\\", "/")]
+    for cand in cands:
+        try:
+            p = os.path.realpath(os.path.join(base, cand + ".x"))
+        except (ValueError, UnicodeEncodeError):
+            continue
         if not inside(sc.root, p):
             return False
     return True
@@ -1184,6 +1224,16 @@ def run_case(case: Dict[str, Any], monitor: bool = True, rec: Any = None) -> Lis
                     if not inside(sc.eff_out, os.path.realpath(os.path.join(sc.eff_out, "000002-" + cand))):
                         leaves = 1
                 rec.count("embed_family_names_that_leave_dir_if_joined_unreduced", leaves)
+            if case["tag"].startswith("nfkc_") and slot in WRITE_SLOTS + EMBED_SLOTS and sc.eff_out is not None:
+                rec.count("nfkc_family_runs")
+                rec.count("nfkc_family_runs_with_file_in_dir", int(created_files > 0))
+                try:
+                    n = unicodedata.normalize("NFKC", h.decode("utf-8"))
+                    pre = "000002-" if embed else ""
+                    leaves = not inside(sc.eff_out, os.path.realpath(os.path.join(sc.eff_out, pre + n + ".x")))
+                except (UnicodeDecodeError, ValueError):
+                    leaves = False
+                rec.count("nfkc_family_names_that_leave_dir_once_normalised", int(leaves))
             if slot == NUMBERED_SLOT:
                 rec.count("numbered_run_family_runs")
                 rec.count("numbered_run_preexisting_files", case["n"] + 1)
